@@ -226,7 +226,7 @@ var properties = map[string]*propSpec{
 	"C15": {
 		Title: "Runtime errors name a real failing step: the deepest one, and the right kind",
 		Checks: []checkSpec{
-			{Test: "TestC15_Errors", Quick: 40000, Thorough: 400000, Rapid: true},
+			{Test: "TestC15_Errors", Quick: 40000, Thorough: 250000, Rapid: true},
 		},
 		Assumptions: assume(specAssumption, "error text equality is modulo the spelling rules of DESIGN §3.3 (bare names after '..' and without '$', entries of a multi-name selector)"),
 		Floors: []floor{
